@@ -128,7 +128,7 @@ func vlqLenOf(n uint32) int {
 //@ ensures [P:C01] err == nil && d == delta
 //@ ensures [P:C01] len(m) == 2 + vlqLen(uint32(len(data))) + len(data) && m[0] == 0xFF && m[1] == typ
 //@ ensures [P:C01] vlqAt(m, 2, uint32(len(data)))
-//@ ensures [P:C01] forall i int :: 0 <= i && i < len(data) ==> m[2 + vlqLen(uint32(len(data))) + i] == data[i]
+//@ ensures [P:C01 slow] forall i int :: 0 <= i && i < len(data) ==> m[2 + vlqLen(uint32(len(data))) + i] == data[i]
 
 //@ func verifRoundTripMetaLong
 //@ requires w != nil && writerInv(w) && len(w.currentChunk.data) == 0 && st == wrs(w) && (st == 0 || (st >= 0x80 && st <= 0xEF)) && len(data) >= 128 && len(data) < 16384
@@ -136,7 +136,7 @@ func vlqLenOf(n uint32) int {
 //@ ensures [P:C01] err == nil && d == delta
 //@ ensures [P:C01] len(m) == 2 + vlqLen(uint32(len(data))) + len(data) && m[0] == 0xFF && m[1] == typ
 //@ ensures [P:C01] vlqAt(m, 2, uint32(len(data)))
-//@ ensures [P:C01] forall i int :: 0 <= i && i < len(data) ==> m[2 + vlqLen(uint32(len(data))) + i] == data[i]
+//@ ensures [P:C01 slow] forall i int :: 0 <= i && i < len(data) ==> m[2 + vlqLen(uint32(len(data))) + i] == data[i]
 
 //@ func verifRoundTripMetaLong3
 //@ requires w != nil && writerInv(w) && len(w.currentChunk.data) == 0 && st == wrs(w) && (st == 0 || (st >= 0x80 && st <= 0xEF)) && len(data) >= 16384 && len(data) < 2097152
@@ -144,7 +144,7 @@ func vlqLenOf(n uint32) int {
 //@ ensures [P:C01] err == nil && d == delta
 //@ ensures [P:C01] len(m) == 2 + vlqLen(uint32(len(data))) + len(data) && m[0] == 0xFF && m[1] == typ
 //@ ensures [P:C01] vlqAt(m, 2, uint32(len(data)))
-//@ ensures [P:C01] forall i int :: 0 <= i && i < len(data) ==> m[2 + vlqLen(uint32(len(data))) + i] == data[i]
+//@ ensures [P:C01 slow] forall i int :: 0 <= i && i < len(data) ==> m[2 + vlqLen(uint32(len(data))) + i] == data[i]
 
 //@ func verifRoundTripMetaLong4
 //@ requires w != nil && writerInv(w) && len(w.currentChunk.data) == 0 && st == wrs(w) && (st == 0 || (st >= 0x80 && st <= 0xEF)) && len(data) >= 2097152 && len(data) < 268435456
@@ -152,7 +152,7 @@ func vlqLenOf(n uint32) int {
 //@ ensures [P:C01] err == nil && d == delta
 //@ ensures [P:C01] len(m) == 2 + vlqLen(uint32(len(data))) + len(data) && m[0] == 0xFF && m[1] == typ
 //@ ensures [P:C01] vlqAt(m, 2, uint32(len(data)))
-//@ ensures [P:C01] forall i int :: 0 <= i && i < len(data) ==> m[2 + vlqLen(uint32(len(data))) + i] == data[i]
+//@ ensures [P:C01 slow] forall i int :: 0 <= i && i < len(data) ==> m[2 + vlqLen(uint32(len(data))) + i] == data[i]
 
 // sysex and escape events: F0 / F7, then vlq(len-1) and the remaining bytes; the reader drops the length again
 func verifRoundTripSysex1(w *writer, st byte, delta uint32, raw Message) (m Message, d uint32, err error) {
@@ -172,7 +172,7 @@ func verifRoundTripSysex1(w *writer, st byte, delta uint32, raw Message) (m Mess
 //@ modifies w.absPos, w.currentChunk, asptr(w.runningWriter, runningstatus.smfwriter).status
 //@ ensures [P:C01] err == nil && d == delta
 //@ ensures [P:C01] len(m) == len(raw) && m[0] == raw[0]
-//@ ensures [P:C01] forall i int :: 1 <= i && i < len(raw) ==> m[i] == raw[i]
+//@ ensures [P:C01 slow] forall i int :: 1 <= i && i < len(raw) ==> m[i] == raw[i]
 
 // sysex and escape events: F0 / F7, then vlq(len-1) and the remaining bytes; the reader drops the length again
 func verifRoundTripSysex2(w *writer, st byte, delta uint32, raw Message) (m Message, d uint32, err error) {
@@ -192,7 +192,7 @@ func verifRoundTripSysex2(w *writer, st byte, delta uint32, raw Message) (m Mess
 //@ modifies w.absPos, w.currentChunk, asptr(w.runningWriter, runningstatus.smfwriter).status
 //@ ensures [P:C01] err == nil && d == delta
 //@ ensures [P:C01] len(m) == len(raw) && m[0] == raw[0]
-//@ ensures [P:C01] forall i int :: 1 <= i && i < len(raw) ==> m[i] == raw[i]
+//@ ensures [P:C01 slow] forall i int :: 1 <= i && i < len(raw) ==> m[i] == raw[i]
 
 // sysex and escape events: F0 / F7, then vlq(len-1) and the remaining bytes; the reader drops the length again
 func verifRoundTripSysex3(w *writer, st byte, delta uint32, raw Message) (m Message, d uint32, err error) {
@@ -212,7 +212,7 @@ func verifRoundTripSysex3(w *writer, st byte, delta uint32, raw Message) (m Mess
 //@ modifies w.absPos, w.currentChunk, asptr(w.runningWriter, runningstatus.smfwriter).status
 //@ ensures [P:C01] err == nil && d == delta
 //@ ensures [P:C01] len(m) == len(raw) && m[0] == raw[0]
-//@ ensures [P:C01] forall i int :: 1 <= i && i < len(raw) ==> m[i] == raw[i]
+//@ ensures [P:C01 slow] forall i int :: 1 <= i && i < len(raw) ==> m[i] == raw[i]
 
 // sysex and escape events: F0 / F7, then vlq(len-1) and the remaining bytes; the reader drops the length again
 func verifRoundTripSysex4(w *writer, st byte, delta uint32, raw Message) (m Message, d uint32, err error) {
@@ -232,7 +232,7 @@ func verifRoundTripSysex4(w *writer, st byte, delta uint32, raw Message) (m Mess
 //@ modifies w.absPos, w.currentChunk, asptr(w.runningWriter, runningstatus.smfwriter).status
 //@ ensures [P:C01] err == nil && d == delta
 //@ ensures [P:C01] len(m) == len(raw) && m[0] == raw[0]
-//@ ensures [P:C01] forall i int :: 1 <= i && i < len(raw) ==> m[i] == raw[i]
+//@ ensures [P:C01 slow] forall i int :: 1 <= i && i < len(raw) ==> m[i] == raw[i]
 
 // header chunk: format, number of tracks and time division survive writeHeader followed by readMThd
 // (metric resolutions 1..32767 and the four SMPTE rates, the domain of C01)
